@@ -1460,7 +1460,8 @@ class SyncObj(object):
 
             if self.__conf.dynamicMembershipChange:
                 self.__updateClusterConfiguration([node for node in data[3] if node != self.__selfNode])
-            self.__onSetCodeVersion(0)
+            # The enabled code version is part of the loaded state
+            self.__onSetCodeVersion(self.__enabledCodeVersion)
             return True
         except:
             logger.exception('failed to load full dump')
